@@ -122,10 +122,21 @@ class Keys:
         return self.t.setdefault(k, KEY_BASE + len(self.t))
 
 
+STR_BASE = 7000
+STRS = ["false", "0", "no", "off", " ", "False", "yes", ""]  # strings used as activation values: truthy unless empty
+
+
+def str_const(v):
+    """a Python str value is an opaque constant of the term domain with Python's truth value"""
+    return Const(STR_BASE + (STRS.index(v) if v in STRS else len(STRS) + (sum(map(ord, v)) % 500)), bool(v))
+
+
 def enc(v, keys):
     """flat encoding identical to Terms.enc_term"""
     if v is None:
         return [0]
+    if isinstance(v, str):
+        return enc(str_const(v), keys)
     if isinstance(v, Const):
         return [1, v.c, 1 if v.truth else 0]
     if isinstance(v, App):
@@ -151,6 +162,8 @@ def enc(v, keys):
 def coq_term(v, keys):
     if v is None:
         return "TNone"
+    if isinstance(v, str):
+        return coq_term(str_const(v), keys)
     if isinstance(v, Const):
         return "(TConst %d %s)" % (v.c, "true" if v.truth else "false")
     if isinstance(v, App):
